@@ -216,6 +216,10 @@ def run(out, tier, seed, model_ok):
     cs = [image_case(seed * 1000003 + i, big=(tier == "thorough" or i % 100 == 0), odd_types=True, case_siblings=0.3 if i % 2 else 0.0) for i in range(n)]
     run_ = A.ApiRun(out, "C17", model_ok, project, observers=[intact, IC.prescribed], name="images")
     run_.run(cs, nontrivial=lambda c, r: len(c["imgs"]) >= 1)
+    # picture parts whose names hold percent escapes, blanks, non-ASCII letters (NFC / NFD), upper case, sub-directories, in general documents
+    # (gen_docx p_media_names: item name = relationship target, character for character; nothing is decoded, normalised or case-folded)
+    run_n = A.ApiRun(out, "C17", model_ok, project, name="media-names")
+    run_n.run(A.gen_cases(seed + 5, n // 8, dict(p_image=0.6, p_table=0.1, style_map=0.1, p_media_names=0.7), tag="c17n-"), nontrivial=lambda c, r: "media-name-odd" in c["features"])
     # one converter object (possibly remembering its results) used for several consecutive conversions
     IC.sequences(out, "C17", cs, random.Random(seed * 7919 + 17), [intact, IC.prescribed], common.deepen(120 if tier == "quick" else 1500))
     cs2 = A.gen_cases(seed + 3, n // 4, dict(p_image=0.5, p_altcontent=0.15, p_table=0.15, style_map=0.2), tag="c17g-")
